@@ -40,6 +40,41 @@ def naming_rest(specs, groups, tf, fasta_like=False, cuts=None, ends=None, fr=0)
     return FIN(AND(names_ok(outs, ba, "SUPER_", unloc_length_order=False), partition_ok(inp, outs)))
 
 
+def naming_2hap(specs, groups, tf, fasta_like=False, cuts=None, ends=None, fr=0):
+    """two haplotypes: the haplotype of the FIRST painted scaffold in the map decides the ranking;
+    a homologue (the next painted scaffold of the other haplotype) shares its chromosome's number;
+    each haplotype assembly has its own copy of a name-tagged chromosome"""
+    model_setup(specs, groups, tf, fr, cuts, ends)
+    inp, lay = mk_input(specs, fasta_like)
+    prtxt = mk_pretext(groups, tf, fr)
+    ba, outs = run_pipeline(inp, prtxt)
+    LAST["outs"] = outs
+    first_hap = [t for t in groups[0][1][0][4] if t not in KNOWN_TAGS and not _looks_like_chr_name(t)][0]
+    ok = names_ok(outs, ba, "SUPER_", decider=first_hap)
+    # where did each Pretext scaffold's first contig go?
+    where = {}
+    for gi, (gname, pieces) in enumerate(groups):
+        cname = lay[pieces[0][0]][0][0].name
+        hits = [(k, sc.name) for (k, sc, i, f) in out_frags(outs) if f.name == cname and i == 0]
+        if len(hits) != 1:
+            return FIN(False)
+        where[gi] = hits[0]
+    for gi, (gname, pieces) in enumerate(groups):
+        tags = set(pieces[0][4])
+        hap = [t for t in tags if t not in KNOWN_TAGS and not _looks_like_chr_name(t)]
+        nm = [t for t in tags if t not in KNOWN_TAGS and _looks_like_chr_name(t)]
+        if hap and where[gi][0] != hap[0]:
+            return FIN(False)                      # in its own haplotype's assembly
+        if nm and where[gi][1] != "SUPER_" + nm[0]:
+            return FIN(False)                      # name-tagged: <prefix><tag>, in EACH haplotype
+    # homologues: autosome groups are consecutive pairs (first haplotype, other haplotype)
+    auto = [gi for gi, (g, pieces) in enumerate(groups) if "Painted" in pieces[0][4] and not any(_looks_like_chr_name(t) for t in pieces[0][4] if t not in KNOWN_TAGS)]
+    for a, b in zip(auto[0::2], auto[1::2]):
+        if where[a][1] != where[b][1]:
+            return FIN(False)                      # the homologue shares the number
+    return FIN(AND(ok, partition_ok(inp, outs)))
+
+
 def naming_alt(specs, groups, tf, fasta_like=False, cuts=None, ends=None, fr=0):
     return naming(specs, groups, tf, fasta_like, cuts, ends, fr, prefix="CHR")
 '''
@@ -88,6 +123,17 @@ def conditions(tier):
     q.append(("last_map_scaffold_has_two_unlocs_nothing_left_over", _m(n, s5[:4], ((0,) * 4, [(0, 0, 0), (1, 1, 0), (1, 2, 0), (1, 3, 0)]),
                                                                         [P, P, U, U], (1, 1, 1, 1), extra_pre=[f"d{i} == 0 and l{i}_0 >= tf + 2" for i in range(4)]), n, 600,
               "two painted Pretext scaffolds, the LAST one with two unlocs, every input scaffold placed (nothing is re-added afterwards): unlocs numbered longest first"))
+    s6 = [(f"in{i}", "F") for i in range(1, 7)]
+    PAT, MAT = P + ("Pat",), P + ("Mat",)
+    n = "names_two_haplotypes"
+    q.append(("two_haplotypes_first_in_map_decides", _m(n, s6[:4], ((0,) * 4, [(0, 0, 0), (1, 1, 0), (2, 2, 0), (3, 3, 0)]), [PAT, MAT, PAT, MAT], (1, 1, 1, 1),
+                                                         body="naming_2hap", extra_pre=[f"d{i} == 0 and l{i}_0 >= tf + 2" for i in range(4)]), n, 900,
+              "two haplotypes Pat (first in the map) and Mat (alphabetically first), two homologue pairs, all four sizes symbolic: Pat's sizes rank the chromosomes, each homologue shares its number"))
+    n = "names_two_haplotypes_same_name_tag"
+    q.append(("two_haplotypes_both_with_name_tag_X", _m(n, s6, ((0,) * 6, [(0, 0, 0), (1, 1, 0), (2, 2, 0), (3, 3, 0), (4, 4, 0), (5, 5, 0)]),
+                                                         [PAT, MAT, PAT + ("X",), MAT + ("X",), PAT, MAT], (1,) * 6,
+                                                         body="naming_2hap", extra_pre=[f"d{i} == 0 and l{i}_0 >= tf + 2" for i in range(6)]), n, 900,
+              "two haplotypes, two homologue pairs and an X chromosome in EACH haplotype (same name tag): each haplotype assembly has its own SUPER_X; sizes symbolic"))
     n = "names_rounding"
     q.append(("two_chromosomes_unloc_haplotig_with_rounding", _m(n, s5[:4], ((0,) * 4, [(0, 0, 0), (0, 1, 0), (1, 2, 0), (2, 3, 0)]),
                                                                   [P, U, P, ("Haplotig",)], (1, -1, 1, 1)), n, 900,
@@ -137,7 +183,7 @@ def conditions(tier):
 from vlib.props.pgen import replay_model  # noqa: E402,F401
 
 BOUNDS = ["<= 10 whole-scaffold pieces with symbolic sizes (3 chromosomes, 3 unlocs, 2-3 haplotigs, 1 named, 1 unplaced), one haplotype; cut templates: one scaffold, two cuts"]
-OUTSIDE = ["more than 9 chromosomes (numeric vs lexical order is C20's law on the sort key)", "two-haplotype maps with homologue grouping and Singleton (not built)",
+OUTSIDE = ["more than 9 chromosomes (numeric vs lexical order is C20's law on the sort key)", "two-haplotype maps with Singleton tags or more than one chromosome per haplotype in a group (<n>A/<n>B names)",
            "input names inside the generated namespaces (SUPER_.., H_.., Scaffold_..): excluded by the statement",
            "'length' for unlocs and haplotigs is the length the code ranks by at naming time (Scaffold.length of the overlap result)"]
 TRUSTED = ["CrossHair/z3", "integer abstraction of the PretextView model", "Fragment.key_tuple stub", "loader cuts"]
